@@ -134,6 +134,20 @@ const("mbtiles_row_variant", "versatiles_container/src/container/mbtiles/reader.
     (r'y1 = self\.simple_query\("MAX\(tile_row\)", &format!\("\{sql_prefix\} tile_row <= \{y1\}"\)\)\?;', 0),
 ], "row refinement: 1 = MIN over rows <= estimate and MAX over rows >= estimate, 0 = MAX refinement with <= (upper bound stays the estimate)")
 
+# ---- C15/C09/C06 from_geo rounding guard ----
+_G = r"(?:1e-6|guard)"
+const("geo_guard_variant", "versatiles_core/src/types/tile_coords.rs", [
+    (r"fn from_geo.{0,1500}?let guard = \(zoom \* 8\.0 \* f64::EPSILON\)\.max\(1e-6\);\s*if round_up \{\s*x = x\.sub\(guard\)\.floor\(\);\s*y = y\.sub\(guard\)\.floor\(\);\s*\} else \{\s*x = x\.add\(guard\)\.floor\(\);\s*y = y\.add\(guard\)\.floor\(\);\s*\}\s*Ok\(TileCoord2 \{\s*x: x\.min\(zoom - 1\.0\)\.max\(0\.0\) as u32,\s*y: y\.min\(zoom - 1\.0\)\.max\(0\.0\) as u32,", 1),
+    (r"fn from_geo.{0,1500}?if round_up \{\s*x = x\.sub\(" + _G + r"\)\.floor\(\);\s*y = y\.sub\(" + _G + r"\)\.floor\(\);\s*\} else \{\s*x = x\.floor\(\);\s*y = y\.floor\(\);\s*\}", 0),
+    (r"fn from_geo.{0,1500}?if round_up \{\s*x = x\.sub\(1e-6\)\.floor\(\);\s*y = y\.sub\(1e-6\)\.floor\(\);\s*\} else \{\s*x = x\.add\(1e-6\)\.floor\(\);\s*y = y\.add\(1e-6\)\.floor\(\);\s*\}", 2),
+], "1 = both corners use guard = max(1e-6, 8 eps 2^z): lower corner adds it before floor, upper corner subtracts it, clamp to [0, 2^z - 1]; 0 = plain floor on the lower corner; 2 = fixed 1e-6 guard on all levels (pinned source: too small for the rounding error at zoom 30/31)")
+
+# ---- C10/C11 GeoValue equality (value tables are hash maps keyed by GeoValue) ----
+const("geovalue_eq_variant", "versatiles_geometry/src/geo/value.rs", [
+    (r"#\[derive\([^)]*PartialEq[^)]*\)\]\s*pub enum GeoValue", 0),
+    (r"impl PartialEq for GeoValue \{\s*fn eq\(&self, other: &Self\) -> bool \{.{0,200}?\(Double\(a\), Double\(b\)\) => a\.to_bits\(\) == b\.to_bits\(\),\s*\(Float\(a\), Float\(b\)\) => a\.to_bits\(\) == b\.to_bits\(\),.{0,400}?impl Hash for GeoValue.{0,300}?GeoValue::Double\(v\) => v\.to_bits\(\)\.hash\(state\),\s*GeoValue::Float\(v\) => v\.to_bits\(\)\.hash\(state\),", 1),
+], "1 = floats are compared and hashed by their bits (the model's tables compare bit patterns); 0 = derived PartialEq (== on floats: 0.0 = -0.0 with different hashes)")
+
 def main():
     out = ["(* GENERATED by tools/scrape_constants.py from /repo — do not edit *)",
            "From Coq Require Import NArith.", "Local Open Scope N_scope.", ""]
